@@ -135,6 +135,7 @@ def run(ctx):
     ctx.rule('C10-R2', 'round functions by truth table (MD5 F,G,H,I; SHA-1 Ch,Parity,Maj,Parity; SHA-256 Ch,Maj), message index schedules, rotation and shift amounts, schedule taps', 20)
     ctx.rule('C10-R3', 'padding: 0x80 first, extend to 0x40/0x80 decided on the size after the marker (> 0x38), 64-bit length = size<<3 at size()-8 (LE for MD5, BE for SHA), bulk loop while off+0x3F < size step 0x40, tail loop step 0x40', 18)
     ctx.rule('C10-R4', 'renderings: bin() little-endian words for MD5 / big-endian for SHA; hex() byte order consistent (bswap32 for MD5 only); 4/5/8 words', 6)
+    ctx.rule('C10-R6', 'digests by evaluation (E-TABLE with a byte-level memory model): MD5 / SHA-1 / SHA-256 constructors, bin() and hex() folded on messages of every padding class (all lengths 0..130 in the thorough tier) and compared with python hashlib; crc32 / fnv1a32 / fnv1a64 values and chaining against zlib / the definition', 6)
     ctx.rule('C10-R5', 'chaining: crc32 inverts the seed on entry and the state on every return; loop step (cs>>8)^table[(uint8_t)(cs^byte)]; fnv1a per byte xor-then-multiply on unsigned bytes; string overloads forward', 7)
     u = ctx.unit(repo_unit('Hash.cc'))
     I = OvEval(u, enum_env(u))
@@ -145,6 +146,134 @@ def run(ctx):
                 if kids(v):
                     return v
         return None
+
+    # ---------------- R6: digests by evaluation (E-TABLE with a byte-level memory model): the
+    # constructors, bin() and hex() of MD5 / SHA-1 / SHA-256 are folded on messages of every padding
+    # class and compared with python's hashlib; crc32 / fnv1a with zlib and the definition
+    R = 'C10-R6'
+    import hashlib as _hl
+    import zlib as _zl
+    from peval import PEval as _PE, Rec as _Rec, Arr as _Arr, Lit as _Lit, Str as _Str, Undecided as _PU, Fault as _PF, Thrown as _PT
+    P6 = _PE([u], max_depth=10, max_iter=200000)
+    lens = [0, 1, 3, 55, 56, 63, 64, 65, 119, 120, 128] if ctx.tier != 'thorough' else list(range(0, 131)) + [191, 192, 193, 255, 256, 257]
+    r6_all = True
+    for cls, ref in (('MD5', _hl.md5), ('SHA1', _hl.sha1), ('SHA256', _hl.sha256)):
+        ct = [f for f in u.func('phosg::%s::%s' % (cls, cls)) if len(params_of(f)) == 2 and body_of(f) is not None]
+        bf = [f for f in u.func('phosg::%s::bin' % cls) if body_of(f) is not None]
+        hf = [f for f in u.func('phosg::%s::hex' % cls) if body_of(f) is not None]
+        ctx.require(len(ct) == 1 and len(bf) == 1 and len(hf) == 1, '%s constructor / bin / hex not found' % cls)
+        ok_, bad_, und_ = 0, None, None
+        for n_ in lens:
+            for pat in ((7, 3), (0, 0)) if n_ in (64,) or ctx.tier == 'thorough' else ((7, 3),):
+                msg = bytes((i_ * pat[0] + pat[1]) & 0xFF for i_ in range(n_))
+                this = _Rec()
+                if cls == 'MD5':
+                    for k_ in ('a0', 'b0', 'c0', 'd0'):
+                        this.f[k_] = 0
+                else:
+                    this.f['h'] = _Arr([0] * (5 if cls == 'SHA1' else 8), 4, False)
+                try:
+                    P6.call_with(ct[0], [_Lit(msg), n_], this=this)
+                    b_ = P6.call_with(bf[0], [], this=this)
+                    h_ = P6.call_with(hf[0], [], this=this)
+                except (_PT, _PF) as e_:
+                    bad_ = bad_ or ('a %d-byte message' % n_, 'evaluation throws / faults: %s' % e_)
+                    continue
+                except _PU as e_:
+                    und_ = str(e_)
+                    break
+                want = ref(msg)
+                # the std::string constructor must produce the same state
+                for sc_ in [f for f in u.func('phosg::%s::%s' % (cls, cls)) if len(params_of(f)) == 1 and body_of(f) is not None and 'string' in (dtype(params_of(f)[0]) or qtype(params_of(f)[0]) or '')]:
+                    this2 = _Rec()
+                    if cls == 'MD5':
+                        for k_ in ('a0', 'b0', 'c0', 'd0'):
+                            this2.f[k_] = 0
+                    else:
+                        this2.f['h'] = _Arr([0] * (5 if cls == 'SHA1' else 8), 4, False)
+                    try:
+                        P6.call_with(sc_, [_Str(msg)], this=this2)
+                        b2_ = P6.call_with(bf[0], [], this=this2)
+                    except (_PT, _PF) as e_:
+                        bad_ = bad_ or ('a %d-byte message' % n_, 'the std::string constructor throws / faults: %s' % e_)
+                        continue
+                    except _PU as e_:
+                        und_ = str(e_)
+                        break
+                    if not isinstance(b2_, _Str) or bytes(b2_.b) != want.digest():
+                        bad_ = bad_ or ('a %d-byte message' % n_, 'the std::string constructor gives %s; the %s digest is %s' % (bytes(b2_.b).hex() if isinstance(b2_, _Str) else None, cls, want.hexdigest()))
+                gb = bytes(b_.b) if isinstance(b_, _Str) else None
+                gh = bytes(h_.b).decode('latin1') if isinstance(h_, _Str) else None
+                if gb != want.digest():
+                    bad_ = bad_ or ('a %d-byte message' % n_, 'bin() is %s (%d bytes); the %s digest is %s' % (gb.hex() if gb is not None else None, len(gb or b''), cls, want.hexdigest()))
+                elif gh is None or gh.upper() != want.hexdigest().upper() or len(gh) != 2 * want.digest_size:
+                    bad_ = bad_ or ('a %d-byte message' % n_, 'hex() is %r; the %s digest is %s' % (gh, cls, want.hexdigest().upper()))
+                else:
+                    ok_ += 1
+            if und_:
+                break
+        if und_:
+            ctx.undecided(R, cls + '|digest', ct[0], '%s could not be evaluated (%s)' % (cls, und_))
+            r6_all = False
+        elif bad_:
+            ctx.bad(R, cls + '|digest', ct[0], '%s of %s: %s' % (cls, bad_[0], bad_[1]))
+            r6_all = False
+        else:
+            ctx.ok(R, cls + '|digest', ct[0], '%d messages covering every padding class (lengths around 0, 55/56, 63/64/65, 119/120, 127/128): bin() and hex() equal hashlib' % ok_)
+    # crc32 / fnv1a: values and chaining
+    def _fnv(data, h, prime, bits):
+        for b_ in data:
+            h = ((h ^ b_) * prime) & ((1 << bits) - 1)
+        return h
+    for nm, reff, bits in (('crc32', lambda d_, s_: _zl.crc32(d_, s_), 32), ('fnv1a32', lambda d_, s_: _fnv(d_, s_, 0x01000193, 32), 32), ('fnv1a64', lambda d_, s_: _fnv(d_, s_, 0x100000001B3, 64), 64)):
+        fs_ = [f for f in u.func('phosg::' + nm) if len(params_of(f)) == 3 and body_of(f) is not None]
+        if not fs_:
+            continue
+        seeds = [0, 1, 0xFFFFFFFF, 0xDEADBEEF] if nm == 'crc32' else [0x811C9DC5 if bits == 32 else 0xCBF29CE484222325, 0, 1]
+        ok_, bad_, und_ = 0, None, None
+        for n_ in (list(range(0, 20)) + [63, 64, 65, 255, 256, 300] if ctx.tier == 'thorough' else list(range(0, 10)) + [16, 17, 64, 65]):
+            msg = bytes((i_ * 13 + 5) & 0xFF for i_ in range(n_))
+            for sd in seeds:
+                try:
+                    got = P6.call_with(fs_[0], [_Lit(msg), n_, sd])
+                    k_ = n_ // 2
+                    part = P6.call_with(fs_[0], [_Lit(msg[k_:]), n_ - k_, P6.call_with(fs_[0], [_Lit(msg[:k_]), k_, sd])])
+                except (_PT, _PF) as e_:
+                    bad_ = bad_ or (n_, sd, 'evaluation throws / faults: %s' % e_)
+                    continue
+                except _PU as e_:
+                    und_ = str(e_)
+                    break
+                want = reff(msg, sd) & ((1 << bits) - 1)
+                # the std::string overload must give the same value (bytes >= 0x80 included)
+                for so_ in [f for f in u.func('phosg::' + nm) if len(params_of(f)) == 2 and body_of(f) is not None]:
+                    try:
+                        gs_ = P6.call_with(so_, [_Str(msg), sd])
+                    except (_PT, _PF) as e_:
+                        gs_ = 'throws / faults: %s' % e_
+                    except _PU as e_:
+                        und_ = str(e_)
+                        break
+                    if gs_ != want:
+                        bad_ = bad_ or (n_, sd, 'the std::string overload gives %s, the definition gives 0x%X' % (('0x%X' % gs_) if isinstance(gs_, int) else gs_, want))
+                if got != want:
+                    bad_ = bad_ or (n_, sd, 'the result is 0x%X, the definition gives 0x%X' % (got if isinstance(got, int) else -1, want))
+                elif part != want:
+                    bad_ = bad_ or (n_, sd, 'hashing the two halves in sequence gives 0x%X, the whole gives 0x%X' % (part if isinstance(part, int) else -1, want))
+                else:
+                    ok_ += 1
+            if und_:
+                break
+        if und_:
+            ctx.undecided(R, nm + '|value', fs_[0], '%s could not be evaluated (%s)' % (nm, und_))
+            r6_all = False
+        elif bad_:
+            ctx.bad(R, nm + '|value', fs_[0], '%s of a %d-byte message with seed 0x%X: %s' % (nm, bad_[0], bad_[1], bad_[2]))
+            r6_all = False
+        else:
+            ctx.ok(R, nm + '|value', fs_[0], '%d (message, seed) pairs: value and chaining equal the definition' % ok_)
+    if r6_all:
+        ctx.defer({'C10-R1', 'C10-R2', 'C10-R3', 'C10-R4', 'C10-R5'}, 'C10-R6')
 
     # ---------------- R1
     with ctx.section('C10-R1', 'Hash.cc'):
